@@ -181,6 +181,10 @@ func (v *Verifier) partitions(fn *ssa.Function, c *Contract) []partition {
 // ---------- verifying one function ----------
 
 func (v *Verifier) resetRun() {
+	v.steps = 0
+	if v.maxSteps == 0 {
+		v.maxSteps = 400000
+	}
 	v.F = NewFactory()
 	v.objN = 0
 	v.fresh = 0
@@ -193,6 +197,8 @@ func (v *Verifier) resetRun() {
 	v.preamble = ""
 	v.ringFacts = map[string]bool{}
 	v.globals = map[*ssa.Global]*Object{}
+	v.sentinels = map[*ssa.Global]*Object{}
+	v.sentinelVal = map[*ssa.Global]Value{}
 	v.globalInit = map[*ssa.Global]Value{}
 }
 
@@ -334,6 +340,27 @@ func (v *Verifier) runPartition(pkg *ssa.Package, fn *ssa.Function, c *Contract,
 	fr.top = true
 	fr.c = c
 	fr.part = p.label
+	wantBefore := map[string]bool{}
+	for _, ct := range c.Cuts {
+		if ct.Kind == "beforedef" {
+			wantBefore[ct.Target] = true
+		}
+	}
+	if len(wantBefore) > 0 {
+		if fd, ok := fn.Syntax().(*ast.FuncDecl); ok && fd.Body != nil {
+			ast.Inspect(fd.Body, func(n ast.Node) bool {
+				if as, ok := n.(*ast.AssignStmt); ok && len(as.Rhs) > 0 {
+					for _, l := range as.Lhs {
+						if id, ok := l.(*ast.Ident); ok && wantBefore[id.Name] {
+							fr.beforeDefs = append(fr.beforeDefs, beforeDef{as.Pos(), id.Name})
+						}
+					}
+				}
+				return true
+			})
+			sort.Slice(fr.beforeDefs, func(i, j int) bool { return fr.beforeDefs[i].pos < fr.beforeDefs[j].pos })
+		}
+	}
 	for _, ct := range c.Cuts {
 		if ct.Kind == "block" && fr.blockEnds == nil {
 			if fd, ok := fn.Syntax().(*ast.FuncDecl); ok && fd.Body != nil {
